@@ -645,6 +645,47 @@ def oracle_c09(res, lf=None):
     return {'failures': fails, 'distinct': distinct, 'samples': samples, 'stats': stats}
 
 
+RULES['c19'] = ('random schemas rich in string/bytes/message fields x well-formed messages, each also with ONE planted defect '
+                '(required string/sub-message missing, null element of a repeated string/message field, n>0 with null array, bytes '
+                'with a length but no data in a required / present optional (any non-zero has_) / proto3 / selected oneof / repeated '
+                'field) at a random depth; expectation known to the generator; accepted messages are also serialised under ASan; '
+                'non-trivial = every case; distinct by literal hash')
+
+
+def oracle_c19(res, lf=None):
+    fails, distinct, samples = [], [], []
+    stats = {'well_formed': 0, 'defective': 0, 'serialised_after_accept': 0, 'defect_kinds': {}}
+    for i, l, out in iter_ops(res, lf):
+        t = l.split()
+        if out.startswith('CRASH') or out == '<missing>':
+            fails.append((i, 'crash while checking/serialising (%s)' % out))
+            continue
+        if t[0] == 'pack':
+            stats['serialised_after_accept'] += 1
+            continue
+        if t[0] != 'check':
+            continue
+        exp = [x for x in t if x.startswith('#expect=')]
+        if not exp:
+            continue
+        exp = exp[0].split('=')[1]
+        got = kv(out).get('check')
+        if exp == '1':
+            stats['well_formed'] += 1
+            if got != '1':
+                fails.append((i, 'a well-formed message was rejected by protobuf_c_message_check'))
+        else:
+            stats['defective'] += 1
+            kind = t[-1].lstrip('#').split('_')[0]
+            stats['defect_kinds'][kind] = stats['defect_kinds'].get(kind, 0) + 1
+            if got != '0':
+                fails.append((i, 'a message lacking something serialisation needs was accepted: ' + t[-1].lstrip('#').replace('_', ' ')))
+        distinct.append(h(l))
+        if len(samples) < 3 and len(l) < 250:
+            samples.append({'op': l, 'impl': out})
+    return {'failures': fails, 'distinct': distinct, 'samples': samples, 'stats': stats}
+
+
 def match_known(known, pid, what, payload):
     """an OPEN finding of known_findings.json that matches this failure, else None"""
     for k in known.get('findings', []):
